@@ -267,10 +267,12 @@ theorem raw_guard_abs_order_not_strict :
 
 /-! ## map-iteration sites -/
 
-/-- Every `range`-over-map site regenerated from the current source is one of the hand-reviewed ones
-(Spec/MapRangesExpected.lean): no new unsorted map walk, no sort removed from a reviewed one. -/
+/-- Every `range`-over-map site regenerated from the current source is either self-evident — an
+`append` whose slice reaches a TOTAL sort (by value, or by a comparator proved above) before any
+output, wherever the walk sits — or one of the hand-reviewed ones (Spec/MapRangesExpected.lean): no
+new map walk that is unsorted or sorted by an unreviewed comparator, no sort removed. -/
 theorem map_ranges_match_review :
-    PV.Gen.MapRanges.sites.all (fun s => PV.Spec.MapRangesExpected.sites.contains s) = true := by decide
+    PV.Gen.MapRanges.sites.all (fun s => s.selfEvident || PV.Spec.MapRangesExpected.sites.contains s) = true := by decide
 
 /-- Each reviewed verdict agrees with what the translator measured (a site judged "sorted here" is
 seen by the translator to reach a sort before any output call), and no site is left to a run-time
